@@ -54,6 +54,61 @@ pub open spec fn write_error_mapping_ok(res: std::io::Result<()>, config: &Confi
 //@rewriteall <<<ErrorKind::BrokenPipe>>> => <<<VKind::BrokenPipe>>>
 //@rewriteall <<<eprintln!("{error}");>>> => <<<verif_eprintln(log);>>>
 
+// ---------------------------------------------------------------- main.rs: --version, --help, --show-config write outside `delta()`
+/// C18: a closed pipe is not an error; every other outcome of the write is passed on unchanged
+pub open spec fn quiet_ok(result: std::io::Result<()>, r: std::io::Result<()>) -> bool {
+    match result {
+        Ok(_) => r is Ok,
+        Err(e) => if err_kind(&e) == VKind::BrokenPipe { r is Ok } else { r == result },
+    }
+}
+//@ fn src/main.rs quiet_on_broken_pipe optional=1
+//@| ensures quiet_ok(result, r),  // @C18:a.closed.pipe.is.not.an.error
+//@rewrite <<<error.kind() == ErrorKind::BrokenPipe>>> => <<<verif_kind(&error) == VKind::BrokenPipe>>>
+
+/// what the three branches owe: the write went through, or its reader had gone => status 0 (an `Err` is what `main`
+/// prints as `Error: ..` with status 1)
+pub open spec fn oneshot_ok(write_result: std::io::Result<()>, r: std::io::Result<i32>) -> bool {
+    match write_result {
+        Ok(_) => r == Ok::<i32, std::io::Error>(0),
+        Err(e) => err_kind(&e) == VKind::BrokenPipe ==> r == Ok::<i32, std::io::Error>(0),
+    }
+}
+//@ region src/main.rs run_app
+//@sig pub fn run_app_version_branch(write_result: std::io::Result<()>) -> (r: std::io::Result<i32>)
+//@fromafter <<<if let Call::Version(msg) = call {>>>
+//@until <<<} else if let Call::Help(msg) = call {>>>
+//@rewrite <<<writeln!(std::io::stdout(), "{}", msg.trim_end())>>> => <<<write_result>>>
+//@| ensures oneshot_ok(write_result, r),  // @C18:version.with.a.closed.pipe.ends.quietly.with.status.0
+
+//@ region src/main.rs run_app
+//@sig pub fn run_app_help_branch(write_result: std::io::Result<()>) -> (r: std::io::Result<i32>)
+//@fromafter <<<} else if let Call::Help(msg) = call {>>>
+//@until <<<} else if let Call::SubCommand(_, cmd) = &call {>>>
+//@rewrite <<<OutputType::oneshot_write(msg)>>> => <<<write_result>>>
+//@| ensures oneshot_ok(write_result, r),  // @C18:help.with.a.quit.pager.or.closed.pipe.ends.quietly.with.status.0
+
+//@ region src/main.rs run_app
+//@sig pub fn run_app_show_config_branch(write_result: std::io::Result<()>) -> (r: std::io::Result<i32>)
+//@fromafter <<<let mut stdout = stdout.lock();>>>
+//@until <<<} // The following block structure is because of>>>
+//@rewrite <<<subcommands::show_config::show_config(&config, &mut stdout)>>> => <<<write_result>>>
+//@| ensures oneshot_ok(write_result, r),  // @C18:show.config.with.a.closed.pipe.ends.quietly.with.status.0
+
+/// (R3) `fatal(..)`: message on stderr and exit(2); never returns
+#[verifier::external_body]
+pub fn verif_fatal() -> ! { unimplemented!() }
+// the listing sub-commands (--list-languages, --show-colors, --parse-ansi, --generate-completion, ..) return their write result
+//@ region src/main.rs run_app
+//@sig pub fn run_app_listing_subcommand_result(subcommand_result: Option<std::io::Result<()>>) -> (r: std::io::Result<i32>)
+//@from <<<if let Some(result) = subcommand_result {>>>
+//@until <<<let _show_config = opt.show_config;>>>
+//@tail Ok(-1)
+//@rewriteall <<<error.kind()>>> => <<<verif_kind(&error)>>>
+//@rewriteall <<<ErrorKind::BrokenPipe>>> => <<<VKind::BrokenPipe>>>
+//@rewrite <<<fatal(format!("{error}"))>>> => <<<verif_fatal()>>>
+//@| ensures subcommand_result matches Some(res) ==> oneshot_ok(res, r) && r is Ok,  // @C18:a.listing.sub.command.with.a.closed.pipe.ends.quietly.with.status.0
+
 // ---------------------------------------------------------------- utils/bat/output.rs try_pager: which pager
 //@ type src/env.rs DeltaEnv keep=pagers noderive
 /// (R3) `env.pagers.clone()` (Verus has no model of the built-in tuple Clone); ASSUMED: a clone equals its original
@@ -69,6 +124,67 @@ pub fn verif_clone_pagers(p: &(Option<String>, Option<String>)) -> (r: (Option<S
 //@rewrite <<<env.pagers.clone()>>> => <<<verif_clone_pagers(&env.pagers)>>>
 //@| ensures r.0 == (match env.pagers.0 { Some(p) => Some(p), None => env.pagers.1 }),  // @C18:DELTA_PAGER.is.preferred.to.PAGER
 //@|         r.1 == (pager_from_config is None && env.pagers.0 is None && env.pagers.1 is Some),  // @C18:arguments.of.less.are.replaced.only.for.a.pager.taken.from.PAGER
+
+// ---------------------------------------------------------------- utils/bat/output.rs: the arguments `less` is started with
+/// (R3) `less_path.clone()`
+#[verifier::external_body]
+pub fn verif_clone_path(p: &PathBuf) -> (r: PathBuf) ensures r == *p { unimplemented!() }
+/// (R3) std::process::Command reduced to its argument list; ASSUMED: `arg`/`args` append, `new` starts empty
+#[verifier::external_body]
+pub struct Command { _p: u8 }
+impl Command {
+    pub uninterp spec fn argv(&self) -> Seq<Seq<char>>;
+    #[verifier::external_body]
+    pub fn new(path: PathBuf) -> (r: Command) ensures r.argv() == Seq::<Seq<char>>::empty() { unimplemented!() }
+    #[verifier::external_body]
+    pub fn arg(&mut self, a: &str) ensures final(self).argv() == old(self).argv().push(a@) { unimplemented!() }
+}
+#[verifier::external_body]
+pub fn verif_args_strs(p: &mut Command, a: Vec<&str>) ensures final(p).argv() == old(p).argv() + a@.map_values(|s: &str| s@) { unimplemented!() }
+#[verifier::external_body]
+pub fn verif_args_strings(p: &mut Command, a: &[String]) ensures final(p).argv() == old(p).argv() + a@.map_values(|s: String| s@) { unimplemented!() }
+#[verifier::external_body]
+pub fn retrieve_less_version(less_path: PathBuf) -> (r: Option<usize>) { unimplemented!() }
+
+/// C18: "less is told to pass colours through whenever its arguments are delta's to choose": no arguments were given
+/// with the pager, or they are to be replaced (pager taken from PAGER) => the first argument is --RAW-CONTROL-CHARS
+/// and --quit-if-one-screen is passed on when asked for; otherwise exactly the user's arguments
+//@ region src/utils/bat/output.rs _make_process_from_less_path
+//@sig pub fn less_arguments(less_path: PathBuf, args: &[String], replace_arguments_to_less: bool, quit_if_one_screen: bool) -> (r: Command)
+//@from <<<let mut p = Command::new(less_path.clone());>>>
+//@until <<<if std::env::var(LESSUTFCHARDEF).is_err() {>>>
+//@tail p
+//@rewrite <<<less_path.clone()>>> => <<<verif_clone_path(&less_path)>>>
+//@rewrite <<<p.args(vec!["--RAW-CONTROL-CHARS"]);>>> => <<<verif_args_strs(&mut p, vec!["--RAW-CONTROL-CHARS"]);>>>
+//@rewrite <<<p.args(args);>>> => <<<verif_args_strings(&mut p, args);>>>
+//@| ensures (args@.len() == 0 || replace_arguments_to_less) ==> r.argv().len() >= 1 && r.argv()[0] == "--RAW-CONTROL-CHARS"@,  // @C18:less.is.told.to.pass.colours.through.whenever.its.arguments.are.deltas.to.choose
+//@|         (args@.len() == 0 || replace_arguments_to_less) && quit_if_one_screen ==> r.argv().last() == "--quit-if-one-screen"@,  // @C18:less.quits.if.one.screen.when.asked.to
+//@|         !(args@.len() == 0 || replace_arguments_to_less) ==> r.argv() == args@.map_values(|s: String| s@),  // @C18:arguments.given.with.the.pager.are.passed.on
+
+// ---------------------------------------------------------------- utils/bat/output.rs: delta does not exit before the pager does
+/// (R3) std::process::Child reduced to "has been waited for"; ASSUMED: `wait` returns only after the child has exited,
+/// `try_wait` returns `Ok(Some(_))` only if it has
+#[verifier::external_body]
+pub struct Child { _p: u8 }
+impl Child {
+    pub uninterp spec fn exited(&self) -> bool;
+    #[verifier::external_body]
+    pub fn wait(&mut self) -> (r: Result<i32, ()>) ensures final(self).exited() { unimplemented!() }
+    #[verifier::external_body]
+    pub fn try_wait(&mut self) -> (r: Result<Option<i32>, ()>) ensures final(self).exited() == (old(self).exited() || r matches Ok(Some(_))) { unimplemented!() }
+    #[verifier::external_body]
+    pub fn kill(&mut self) -> (r: Result<(), ()>) ensures final(self).exited() == old(self).exited() { unimplemented!() }
+}
+#[verifier::external_type_specification]
+#[verifier::external_body]
+pub struct ExStdout(std::io::Stdout);
+//@ type src/utils/bat/output.rs OutputType noderive
+//@ region src/utils/bat/output.rs OutputType@Drop::drop
+//@sig pub fn output_type_drop(this: &mut OutputType)
+//@from <<<^>>>
+//@to <<<let _ = command.wait(); }>>>
+//@rewrite <<<= *self {>>> => <<<= *this {>>>
+//@| ensures *final(this) matches OutputType::Pager(c) ==> c.exited(),  // @C18:delta.does.not.exit.before.the.pager.does
 
 } // verus!
 fn main() {}
